@@ -30,11 +30,22 @@ Proved, for every input and every token the lexer emits:
 * `errors_carry_token_pos` — a source fact regenerated (go/ast) on every run: errors, messages,
   stack traces, the except object and break point keys copy Lline / Lpos of one token.
 
+* `stale_column_exact` — the stale column after a `#` comment exactly: measured from the same line
+  start as that comment's own column;
+* `token_list_shape`, `lines_monotone`, `eof_line_true` — EOF only at the end, `Pos` strictly
+  increasing, lines never decreasing, EOF carries the line of the end of the input.
+
 Not proved (tested by the correspondence on every run): that the model equals parser/lexer.go;
-the stale column VALUE after a `#` comment (only classified); the EOF token's line (= line of
-the end of input; evaluated per case); that `Pos` is strictly increasing along the token list
-(every phase moves forward — `Pushed` — but the list-level statement is not drawn);
-`separation_ignores_comments` (case kind S); errors / break points at run time (kinds E, B).
+errors / break points at run time (kinds E, B) beyond the syntactic source fact;
+`separation_ignores_comments` (case kind S, metamorphic). A theorem for the separation clause
+would need the PARSER model: (1) that `Ecal.Parse.parse` reads token lines only through the
+comparisons `<` / `==` between two tokens' lines (a parametricity lemma over the parser model's
+`run`, `ndReturn`, `ndIdentifier`, `hasMoreStatements`); (2) that inserting a comment between two
+tokens leaves the non-comment token sequence and, by `lines_monotone` and
+`token_positions_true_partial`, every such comparison unchanged — the lexer half, which follows
+from the theorems here once "lexing `pre ++ comment ++ rest` = lexing `pre ++ blanks-with-the-same-
+newlines ++ rest` up to the comment token" is proved (a compositionality lemma for `lex` that is
+not there yet); (3) the parser model's agreement with parser.go (C07's tie).
 
 Full-strength statement, false as it stands (`hash_comment_column_witness`):
   `∀ input, ∀ t ∈ lex input, t.id ≠ tEOF → t.line = lineOf input t.pos ∧ t.col = colOf input t.pos`.
